@@ -51,7 +51,7 @@ def regen():
     return json.loads(r.stdout.strip().splitlines()[-1])
 
 
-def make(targets=(), timeout=1500):
+def make(targets=(), timeout=3000):
     """Full .vo build (never -vos).  Returns (ok, log)."""
     if not os.path.exists(os.path.join(COQ, 'Makefile')) or \
             os.path.getmtime(os.path.join(COQ, 'Makefile')) < os.path.getmtime(os.path.join(COQ, '_CoqProject')):
@@ -62,7 +62,7 @@ def make(targets=(), timeout=1500):
     return r.returncode == 0, (r.stdout + r.stderr)
 
 
-def build_driver(timeout=600):
+def build_driver(timeout=1500):
     """Extract the model and compile the OCaml driver.  Returns (ok, log)."""
     gen = os.path.join(OCAML, 'gen')
     os.makedirs(gen, exist_ok=True)
